@@ -131,6 +131,7 @@ def check(pid, tier='quick', seed=0, shared=None, write_evidence=True, quiet=Fal
     unverified = set()
     solver_us_box = [0]
     counters = {}
+    generated = {}
     solver_us = 0
     twins = 0
     for r in results:
@@ -150,6 +151,8 @@ def check(pid, tier='quick', seed=0, shared=None, write_evidence=True, quiet=Fal
             inconclusive.append(f'{wname}: assume/admit outside the shim')
             continue
         trusted.update(scan_trusted(unit_text))
+        if any((meta.get('generated') or {}).values()):
+            generated[wname] = meta['generated']
         for k, v in meta['counters'].items():
             counters[k] = counters.get(k, 0) + v
         # functions degraded to their assumed contract (lost anchor / no longer in the verified subset)
@@ -422,6 +425,7 @@ def check(pid, tier='quick', seed=0, shared=None, write_evidence=True, quiet=Fal
             'known_findings_hit': sorted(seen),
             'thorough': thorough,
             'inconclusive': inconclusive,
+            'generated_obligations': generated,
             'bounded_stand_in': bounded,
         },
         'assumptions': ASSUMPTIONS + ['repo function NOT verified (contract assumed): ' + u for u in sorted(unverified)],
